@@ -35,6 +35,7 @@ func checkC12(r *Report, p *Program) {
 	siblingStepsIndependent(r, p, "R12.15")
 	benignMeansNil(r, p, "R12.17")
 	claimToleranceConverse(r, p, "R12.18")
+	resultNotUsedBeforeErrorCheck(r, p, "R12.19")
 	retriesReallyRetry(r, p, "R12.16", 1)
 }
 
